@@ -31,6 +31,9 @@ func propertyOfInvariant(v string) (string, string) {
 	return "C06", "C06.cleanup_accounting"
 }
 
+// tokDigest: result token -> action digest it was reported for (per run)
+var tokDigest map[*run]map[string]string
+
 // monitor judges the implementation's own trace and state against the property texts
 // (independently of the model).
 func (r *run) monitor(events []string, st *scheduler.VerifState, dump string) {
@@ -58,6 +61,18 @@ func (r *run) monitor(events []string, st *scheduler.VerifState, dump string) {
 			taskOfWorker[f[1]] = kv["task"]
 		case "t":
 			taskLine[f[1]] = kv
+		}
+	}
+	// C02 "the final message carries the ExecuteResponse supplied by the worker that last ran the
+	// task": remember for which action digest every result token was reported
+	if pf := strings.Fields(r.primary); len(pf) > 2 && pf[0] == "sync" {
+		for _, x := range pf[1:] {
+			if c := strings.Split(x, ":"); len(c) == 5 && c[0] == "c" {
+				if tokDigest[r] == nil {
+					tokDigest = map[*run]map[string]string{r: {}} // one run at a time: drop older runs
+				}
+				tokDigest[r][c[4]] = c[1]
+			}
 		}
 	}
 	newRet := map[string]int64{}
@@ -143,12 +158,22 @@ func (r *run) monitor(events []string, st *scheduler.VerifState, dump string) {
 					if currentProp == "C06" {
 						lp = "C06" // "... removed after the no-waiter timeout, cancelling the task if it was the last"
 					}
+					if currentProp == "C02" {
+						lp = "C02" // "... an error the scheduler itself produced for a stated cause": the cause is false
+					}
 					r.failf("violation", lp, "C03.leaver_harmless / C06.no_waiter_timeout", "client %d is attached to operation %d but was told that the task was cancelled because it no longer has any waiting clients", c, op)
 				}
 				payload := kv["code"] + "/" + kv["tok"]
 				tok, _ := strconv.Atoi(kv["tok"])
 				if tok > 0 {
 					r.flags["worker-result"] = true
+				}
+				if tok > 0 && !r.released {
+					if dg, ok := tokDigest[r][kv["tok"]]; ok {
+						if tl := prevTask[strconv.Itoa(op)]; tl != nil && tl["d"] != "" && tl["d"] != dg {
+							r.failf("violation", "C02", "C02.faithful", "operation %d (action digest %s) finished with the result a worker reported for action digest %s", op, tl["d"], dg)
+						}
+					}
 				}
 				if prev, ok := r.doneTask[op]; ok && prev != payload {
 					r.failf("violation", "C02", "C02.faithful", "operation %d reported two different final results (%s, %s)", op, prev, payload)
